@@ -111,9 +111,9 @@ impl ContainsPoint for Triangle {
                 // This check allows this algorithm to work with clockwise or counterclockwise
                 // triangles.
                 if a < 0 {
-                    s <= 0 && s + t >= a
+                    s <= 0 && t <= 0 && s + t >= a
                 } else {
-                    s >= 0 && s + t <= a
+                    s >= 0 && t >= 0 && s + t <= a
                 }
             }
         };
